@@ -3,6 +3,7 @@ R-pure rig: real hypercorn functions vs. model (coq/model/Config.v, Cli.v) on ge
 from __future__ import annotations
 
 import email.utils
+import importlib
 import io
 import os
 import re
@@ -340,17 +341,35 @@ def loader_cases(ctx, n, tmp):
             modname = f"verif_conf_{os.getpid()}_{idx}"
             (tmp / f"{modname}.py").write_text(py_dump(kvs))
             sys.path.insert(0, str(tmp))
+            # the string forms of from_object: 'module', 'module.instance', and an instance inside a package ('pkg.sub.mod.instance')
+            pkg = f"verif_pkg_{os.getpid()}_{idx}"
+            (tmp / pkg / "sub").mkdir(parents=True, exist_ok=True)
+            (tmp / pkg / "__init__.py").write_text("")
+            (tmp / pkg / "sub" / "__init__.py").write_text("")
+            inst = "class production:\n" + "".join(f"    {k} = {v!r}\n" for k, v in kvs) + "    pass\n"
+            (tmp / pkg / "sub" / "settings.py").write_text("import os\n" + inst)
+            (tmp / f"{modname}_inst.py").write_text("import os\n" + inst)
+            importlib.invalidate_caches()
+            raised = {}
             try:
-                results["module"] = Config.from_object(modname)
+                for form, ref_str in (("module", modname), ("module.instance", f"{modname}_inst.production"),
+                                      ("pkg.sub.module.instance", f"{pkg}.sub.settings.production")):
+                    try:
+                        results[form] = Config.from_object(ref_str)
+                    except Exception as e:  # noqa: BLE001
+                        raised[form] = repr(e)
             finally:
                 sys.path.remove(str(tmp))
-                sys.modules.pop(modname, None)
+                for m in [k for k in sys.modules if k == modname or k.startswith(modname + "_") or k == pkg or k.startswith(pkg + ".")]:
+                    sys.modules.pop(m, None)
             tf = tmp / f"conf_{idx}.toml"
             tf.write_text(toml_dump(kvs))
             results["toml"] = Config.from_toml(str(tf))
         obs = {name: config_obs(cfg, keys) for name, cfg in results.items()}
         case = {"kind": "loaders", "kvs": kvs}
         fails = []
+        for form, err in raised.items():
+            fails.append({"case": case, "what": f"from_object('{form}') raised {err}", "signature": "loaders:" + form})
         ref = obs["mapping"]
         for name, o in obs.items():
             if o != ref:
